@@ -157,6 +157,7 @@ def run(prog, rep, tier='quick'):
     rep.rule('O3-getter-recomputes', 'paths of the psd getter that skip self() are only feasible when psd is not None '
              'and modified is not True')
     rep.rule('O3-call-assigns-psd', 'every non-raising path of C.__call__ assigns the psd cache')
+    rep.rule('O5-derivation-from-fresh-cache', 'a store to the psd cache whose value is computed from the raw cache field is preceded on its path by a refresh (psd getter or self())')
     rep.rule('O6-N-follows-data', 'every store to the data length N is on a path that stores new data and takes its size')
     rep.rule('O4-range-paired', 'every path writing __NFFT (resp. __sampling) also updates _range.N (resp. '
              '_range.sampling / constructs the Range with it); Range recomputes df = sampling/N after each change')
@@ -450,6 +451,11 @@ def run(prog, rep, tier='quick'):
                         n_o6 += 1
                         v = e[2]
                         ok = ('data' in v.getters or '_Spectrum__data' in v.fields) and p.has('wr', '_Spectrum__data')
+                        if not ok:
+                            # the size of a local that is also what is stored as the data on this path
+                            dws = p.writes('_Spectrum__data')
+                            if dws and dws[-1][2].params and dws[-1][2].params <= v.params:
+                                ok = True
                         key = ('O6', f.qname, ok)
                         if key in seen:
                             continue
@@ -461,6 +467,46 @@ def run(prog, rep, tier='quick'):
                                           'the data length N is overwritten without storing new data (N must equal data.size: '
                                           'estimators normalise by it)', loc(f.mod, f.node), p.describe())
     rep.floor('writes of the data length N', n_o6, 1)
+    # O5: a method that re-derives the cache from itself (the sides setter converting the stored PSD) must start from a
+    # refreshed cache: a value computed from the *raw* cache field is stale whenever an attribute change is pending
+    n_o5 = 0
+    for D in hier:
+        for mname, mnode in D.methods.items():
+            if mname in ('__init__', '__call__'):
+                continue
+            f = D.find_method(mname)
+            direct = {mangle(D.name, t.attr) for t in ast.walk(mnode)
+                      if isinstance(t, ast.Attribute) and isinstance(t.ctx, ast.Store)
+                      and isinstance(t.value, ast.Name) and t.value.id == 'self'}
+            if PSD_FIELD not in direct:
+                continue
+            try:
+                paths = ts.method_paths(D, f)
+            except ExplosionError:
+                continue
+            for p in paths:
+                if p.end == 'raise':
+                    continue
+                for e in p.events:
+                    if e[0] == 'wr' and e[1] == PSD_FIELD and len(e) > 4 and e[4] == f.qname:
+                        v = e[2]
+                        if PSD_FIELD not in v.fields or not v.calls:
+                            continue            # not derived from the raw cache (or the cache itself, stored back unchanged)
+                        n_o5 += 1
+                        ok = v.refreshed or ('psd' in v.getters)
+                        key = ('O5', f.qname, ok)
+                        if key in seen:
+                            continue
+                        seen.add(key)
+                        if ok:
+                            rep.proved('O5-derivation-from-fresh-cache', f.qname, 'stores a value derived from the cache',
+                                       'the cache was read through the psd getter (refreshed) on the same path', loc(f.mod, f.node), p.describe())
+                        else:
+                            rep.violation('O5-derivation-from-fresh-cache', f.qname, 'stores a value derived from the cache',
+                                          'the new cache value is computed from the raw cache field without a refresh (psd getter / '
+                                          'self()) on this path: with an attribute change pending it converts an obsolete estimate, '
+                                          'and the next read recomputes and discards the conversion', loc(f.mod, f.node), p.describe())
+    rep.floor('cache derivations examined', n_o5, 1)
     # Range itself: df recomputed from the current N and sampling after each change
     R = prog.cls('psd', 'Range')
     n_range = 0
